@@ -33,6 +33,7 @@ use std::io::{BufRead, Write};
 
 fn worker_main() -> i32 {
     rt::install_panic_hook();
+    profiles::install_logger();
     if let Err(e) = seams::self_test() {
         println!("{}", serde_json::json!({"fatal": format!("seam self-test failed: {}", e)}));
         return 2;
